@@ -73,3 +73,17 @@ CLAIMS["C18"] = {
     "technique": "static analysis: definite-assignment flow over constructor chains, literal-table lint against the "
                  "class hierarchy and the label vocabulary, guard-dominance check, copy-before-mutate alias check",
 }
+
+CLAIMS["C08"] = {
+    "text": "Decides structural necessary conditions of state-preserving conversions: no conversion function can fall off its "
+            "end on a path while returning a value on others; state_to_graph's tuple returns agree on (graph, tableau, gates) "
+            "order; QuantumState.convert_representation's table has all nine ordered pairs, each value's name encodes its key "
+            "and each helper delegates to the same-named converter; float inverses/determinants used for GF(2) solves are "
+            "rounded before mod 2 at the site with a known failing input (other sites of the idiom are advisory). All paths, "
+            "hence all inputs. Does not decide that conversions yield |G>, the negativity threshold or Hadamard-position "
+            "heuristics, or _phase_correction's signs.",
+    "ref": "DESIGN.md §5.8",
+    "note": "Trusted: the converters' numerics. The name-encodes-key convention of QuantumState's helpers is the repository's own.",
+    "technique": "static analysis: all-paths-return flow, return-tuple role agreement, dispatch-table exhaustiveness, "
+                 "float-to-GF(2) rounding taint rule",
+}
